@@ -11,13 +11,28 @@ import (
 	"github.com/tetratelabs/wazero/internal/wasm"
 )
 
+// readBytes reads exactly size bytes. When the input holds fewer, it returns the error io.ReadFull
+// would return on it (io.EOF when nothing is left, else io.ErrUnexpectedEOF) without first
+// allocating a buffer of the declared size: a few bytes of input must not cost gigabytes.
+func readBytes(r *bytes.Reader, size uint32) ([]byte, error) {
+	if remaining := r.Len(); uint64(size) > uint64(remaining) {
+		if remaining == 0 {
+			return nil, io.EOF
+		}
+		_, _ = r.Seek(0, io.SeekEnd) // consumed, as io.ReadFull would have
+		return nil, io.ErrUnexpectedEOF
+	}
+	buf := make([]byte, size)
+	_, err := io.ReadFull(r, buf)
+	return buf, err
+}
+
 func decodeValueTypes(r *bytes.Reader, num uint32) ([]wasm.ValueType, error) {
 	if num == 0 {
 		return nil, nil
 	}
 
-	ret := make([]wasm.ValueType, num)
-	_, err := io.ReadFull(r, ret)
+	ret, err := readBytes(r, num)
 	if err != nil {
 		return nil, err
 	}
@@ -45,8 +60,8 @@ func decodeUTF8(r *bytes.Reader, contextFormat string, contextArgs ...interface{
 		return "", uint32(sizeOfSize), nil
 	}
 
-	buf := make([]byte, size)
-	if _, err = io.ReadFull(r, buf); err != nil {
+	buf, err := readBytes(r, size)
+	if err != nil {
 		return "", 0, fmt.Errorf("failed to read %s: %w", fmt.Sprintf(contextFormat, contextArgs...), err)
 	}
 
